@@ -181,8 +181,21 @@ func (t *Typedef) resolve(d *typeDictionary) []error {
 // cannot be resolved then one or more errors are returned.
 func (t *Type) resolve(d *typeDictionary) (errs []error) {
 	if t.YangType != nil {
-		return nil
+		if len(t.resolveErrs) == 0 {
+			return nil
+		}
+		// The previous attempt found errors. Resolve again, so that an
+		// unchanged situation reports them again (e.g. on a second call
+		// of Process) and a changed one (a missing module has been
+		// loaded since) gets its chance.
+		t.YangType = nil
+		t.resolveErrs = nil
 	}
+	defer func() {
+		if t.YangType != nil {
+			t.resolveErrs = errs
+		}
+	}()
 
 	// If t.Name is a base type then td will not be nil, otherwise
 	// td will be nil and of type *Typedef.
